@@ -145,18 +145,16 @@ XalanDOMString::resize(
 
     if (theCount != theOldSize)
     {
-        if (theOldSize == 0)
+        const bool  fHadTerminator = m_data.empty() == false;
+
+        // Resize with an extra element for the terminator...
+        m_data.resize(theCount + 1, theChar);
+
+        if (theCount > theOldSize && fHadTerminator == true)
         {
-            // If the string is of 0 length, resize but add an
-            // extra byte for the terminating byte.
-            m_data.resize(theCount + 1, theChar);
-        }
-        else
-        {
-            // If the string is not of 0 length, resize but
-            // put a copy of theChar where the terminating
-            // byte used to be.
-            m_data.resize(theCount + 1, theChar);
+            // Put a copy of theChar where the
+            // terminator used to be.
+            m_data[theOldSize] = theChar;
         }
 
         m_size = theCount;
